@@ -167,7 +167,7 @@ CHECKS = {
          "every refused request (any error kind) leaves slots, registries and live objects unchanged up to dead temporaries "
          "and `existing` is a live canon owner; a name-only request is a pure lookup; counters move only on Created / failing "
          "user constructor. Tie: differential correspondence of whole histories (depth-3 exhaustive per class, random over a "
-         "zoo of 23 classes), every step compared (outcome, existing, identities, both registries, attributes, counters, "
+         "zoo of 25 classes), every step compared (outcome, existing, identities, both registries, attributes, counters, "
          "weakref liveness); counters move by exactly +1 of the addressed class and only on Created / failing user constructor. "
          "Name-only for domains is proved for names with an unstarred base and refuted for double-starred names (same family "
          "as the recorded C04 finding).",
@@ -232,7 +232,7 @@ CHECKS = {
          "created objects belong to the class called), failing user constructors never create and leave no trace, registry "
          "values have exactly the class of the registry; reader: in sessions satisfying the session invariant every object "
          "the reader creates is an instance of exactly the configured class of its kind and every registry holds only its own "
-         "class; REFUTED in mixed sessions (known finding, replayed on every run). Tie: histories over a zoo of 23 classes "
+         "class; REFUTED in mixed sessions (known finding, replayed on every run). Tie: histories over a zoo of 25 classes "
          "(direct, sub-sub, siblings, changed constants, failing before/after super().__init__).",
     design="DESIGN.md 6, 7 (C15)", technique="Coq proof (frame property of the registry machine, reader session invariant) + correspondence over the subclass zoo"),
  "C19": dict(
